@@ -13,6 +13,7 @@ import (
 	"path/filepath"
 	"runtime"
 	"sort"
+	"strings"
 	"testing"
 	"time"
 
@@ -354,7 +355,7 @@ func doSelfTest(t *testing.T) {
 		defer hashF.Close()
 	}
 	props := []string{"C01", "C03", "C05", "C06", "C07", "C08", "C09", "C19"}
-	for run := 0; run < *fSelfTest; run++ {
+	for run := *fFrom; run < *fSelfTest; run++ {
 		prop := props[run%len(props)]
 		gen := func() *Desc {
 			rng := rand.New(rand.NewSource(*fSeed*1000003 + int64(run)*104729))
@@ -376,6 +377,29 @@ func doSelfTest(t *testing.T) {
 		if a.Hash != b.Hash || a.Steps != b.Steps || a.Hash != c.Hash || a.Steps != c.Steps {
 			bad++
 			fmt.Printf("SELFTEST-DIVERGENCE run=%d prop=%s hashes %016x %016x %016x steps %d %d %d invalid=%q/%q/%q\n", run, prop, a.Hash, b.Hash, c.Hash, a.Steps, b.Steps, c.Steps, a.Sim.Invalid, b.Sim.Invalid, c.Sim.Invalid)
+			if *fVerbose {
+				// locate the first differing step between two replays of the same choice list
+				for try := 0; try < 6; try++ {
+					x := Exec(t, withChoices(gen(), a.Choices), true, true, nil)
+					y := Exec(t, withChoices(gen(), a.Choices), true, true, nil)
+					if x.Hash == y.Hash {
+						continue
+					}
+					for i := 0; i < len(x.Trace) && i < len(y.Trace); i++ {
+						if x.Trace[i] != y.Trace[i] {
+							lo := i - 12
+							if lo < 0 {
+								lo = 0
+							}
+							fmt.Printf("first difference at trace line %d\n--- x\n%s\n--- y\n%s\n", i, strings.Join(x.Trace[lo:i+3], "\n"), strings.Join(y.Trace[lo:i+3], "\n"))
+							break
+						}
+					}
+					b, _ := json.Marshal(gen())
+					fmt.Printf("descriptor: %s\n", b[:min(len(b), 3000)])
+					break
+				}
+			}
 		}
 	}
 	fmt.Printf("SELFTEST runs=%d divergences=%d\n", *fSelfTest, bad)
